@@ -40,6 +40,18 @@ def gen_config(rng, i):
          "indpb": rng.choice(dy), "weights": weights, "evkind": evkind, "hofsize": rng.choice([1, 2, 3, 5]),
          "pop0": pop0}
     ngen = rng.choice([1, 2, 3, 4, 5])
+    # fixed corners, always present: single individual; genome of length 2 with certain crossover; certain mutation of
+    # every gene; nothing ever varies (all offspring stay valid: zero evaluation tasks); hall of fame of one
+    if i == 0:
+        p.update(pop0=[[1, 0, 1]], tournsize=3, hofsize=1)
+        n, L = 1, 3
+    elif i == 1:
+        p.update(pop0=[[0, 1], [1, 0], [1, 1]], cxpb=(1, 1), mutpb=(0, 1))
+        n, L = 3, 2
+    elif i == 2:
+        p.update(mutpb=(1, 1), indpb=(1, 1), cxpb=(0, 1))
+    elif i == 3:
+        p.update(mutpb=(0, 1), cxpb=(0, 1), hofsize=1)
     need = (ngen + 1) * (n * p["tournsize"] + 2 * n + n * (L + 1)) + 16
     stream = []
     for _ in range(need):
